@@ -4,6 +4,7 @@ import (
 	"fmt"
 	"os"
 	"sort"
+	"strconv"
 	"testing"
 	"time"
 )
@@ -111,7 +112,11 @@ func WorkerMain(t *testing.T, eng Engine) {
 			out.InProgress = p.Seed
 			flush()
 			res := eng.Execute(t, p)
-			res.JournalTail = tail(res.JournalTail, 60)
+			keep := 60
+			if v, err := strconv.Atoi(os.Getenv("VERIF_JOURNAL_TAIL")); err == nil && v > 0 {
+				keep = v
+			}
+			res.JournalTail = tail(res.JournalTail, keep)
 			out.ReplayResults = append(out.ReplayResults, res)
 			out.Runs++
 		}
